@@ -98,6 +98,16 @@ def eol_sensitive(v11, cp):
 
 # events: ("S", name, [(an, av)...]) ("E", name) ("T", s) ("C", s) ("M", s) ("P", target, data); strings = unit lists
 
+def has_unpaired_surrogate(evs):
+    for e in evs:
+        for x in e[1:]:
+            strs = [x] if (isinstance(x, list) and not (x and isinstance(x[0], tuple))) else [v for pair in x for v in pair] if isinstance(x, list) else []
+            for st in strs:
+                if code_points(st) is None:
+                    return True
+    return False
+
+
 def has_surrogate(evs):
     return any(is_high(u) or is_low(u) for e in evs for x in e[1:] for u in flat_units(x))
 
@@ -606,6 +616,11 @@ def evaluate(ctx, cases, impl, model):
                 lw = "legacy FormatterToXML output parses to a different tree:\n#     legacy %s\n#     new    %s" % (oldp[:300], newp[:300])
             if lw:
                 orc.append({"case": line, "what": lw, "known": legacy_class(enc, ver, evs)})
+        elif has_unpaired_surrogate(evs) and old.startswith("ok:"):
+            # no serializer may write a document for such a tree
+            orc.append({"case": line, "what": "legacy FormatterToXML raised no error for a tree with an unpaired surrogate; its output: %s" % (
+                            oldp[:200] if oldp.startswith("PARSEERR") else "parses to " + oldp[:200]),
+                        "known": "K-new-4" if enc in ("UTF-8", "UTF-16") else None})
     return corr, orc
 
 
